@@ -156,8 +156,8 @@ func (x *World) compByIndex(id uint8) (ct.Comp, bool) {
 	return 0, false
 }
 
-// checkShrunk is the capacity clause of C15, evaluated right after an unbounded Shrink.
-func (x *World) checkShrunk() *Violation {
+// CheckShrunk is the capacity clause of C15, evaluated right after an unbounded Shrink.
+func (x *World) CheckShrunk() *Violation {
 	st := x.W.Stats()
 	capN, capR := x.initCaps()
 	for ai := range st.Archetypes {
